@@ -78,7 +78,7 @@ class C18(Check):
     floor_nontrivial = 30
     required_counters = ("requests_logged", "passes_checked", "chunks_handed_on")
     shards = (12, 16)
-    budget = (80, 500)
+    budget = (300, 500)
 
     def cases(self, tier, seed):
         q = tier == "quick"
